@@ -43,7 +43,7 @@ REAL_VS_STUB = {"real": ["torchsde.BrownianInterval/BrownianPath/BrownianTree", 
                          "trampoline", "numpy SeedSequence", "torch kernels"],
                 "stub": ["value cache wrapped by FaultyCache (forwarding)", "np.random.randint (entropy seam)",
                          "SDE zoo drift/diffusion (mode sdeint)"]}
-PROBES = ("misc_ops", "calls_monitored", "mode_machine", "mode_sweep", "mode_sdeint", "sweep_ge_1000", "backward_sweep",  # sweep_ge_10000: thorough tier only
+PROBES = ("misc_ops", "retained_tensor_walks", "calls_monitored", "mode_machine", "mode_sweep", "mode_sdeint", "sweep_ge_1000", "backward_sweep",  # sweep_ge_10000: thorough tier only
           "clipped_last_step_le_4ulp", "sub_tolerance_query", "zero_len_after_rounding", "cache0", "tiny_cache",
           "refinement_fired", "sdeint_default_bm", "sdeint_tree_or_path", "dt_hint_far_off", "f32_grid")
 STATE_MEASURE = "distinct final interval-tree shapes (hash of display_binary_tree dump; machine and small sweeps only)"
@@ -159,6 +159,18 @@ class Mon:
             raise Violation("cache_bound", {"entries": c.entries(), "cache_size": self.cs}, idx)
         return res
 
+    def check_retained(self, idx, probes):
+        """Values the object keeps alive outside its bounded cache are cached entries in all but name (added after
+        C07-sibling_noise_memo, wave 6): the floating-point tensors reachable from the object are counted by walking its
+        attributes. On the unchanged tree that number is (1 or 2) x cache entries + 2."""
+        if self.cs is None:
+            return
+        n = seams.retained_tensors(self.built.front)
+        probes["retained_tensor_walks"] += 1
+        if n > 3 * self.cs + 16:
+            raise Violation("retained_values_unbounded", {"tensors_reachable_from_object": n, "cache_size": self.cs,
+                                                           "bound": 3 * self.cs + 16, "calls": self.calls}, idx)
+
 
 def sweep_grid(t0, t1, n, grid, div, tail_ulps=0):
     """Solver-shaped time grid: t_{k+1} = min(t_k + dt, t1) accumulated in the given precision. With tail_ulps = k
@@ -222,6 +234,7 @@ def _run_machine(case, log, probes):
         td1 = getattr(built.interval, "_tree_dt", None) if built.interval is not None else None
         if td1 != td0:
             probes["refinement_fired"] += 1
+    mon.check_retained("end", probes)
     return built, mon
 
 
@@ -250,6 +263,7 @@ def _run_sweep(case, log, probes):
         td1 = getattr(built.interval, "_tree_dt", None) if built.interval is not None else None
         if td1 != td0:
             probes["refinement_fired"] += 1
+    mon.check_retained("end", probes)
     n = len(steps)
     if n >= 1000:
         probes["sweep_ge_1000"] = 1
